@@ -293,6 +293,11 @@ func (hs *serverHandshakeState) processClientHello() error {
 func supportsECDHE(c *Config, supportedCurves []CurveID, supportedPoints []uint8) bool {
 	supportsCurve := false
 	for _, curve := range supportedCurves {
+		// Hybrid groups exist only in TLS 1.3 and cannot carry an ECDHE key
+		// exchange of TLS 1.2 and below, which is what this function decides.
+		if isTLS13OnlyKeyExchange(curve) {
+			continue
+		}
 		if c.supportsCurve(curve) {
 			supportsCurve = true
 			break
